@@ -285,11 +285,21 @@ def learnWidths (s : St) (wf : Option String) (impl : String) : St :=
     | some cs, some ws => { s with cw := (cs.zip ws) ++ s.cw.take 64 }
     | _, _ => s
 
+/-- The three laws of `Spec.Editor.Segmentation`, checked on the text at hand (every cluster-aligned
+prefix, every split): a violation shows up in the model column (broken correspondence). -/
+def segLawsOk (cl : List Nat → List (List Nat)) (v : List Nat) : Bool :=
+  let cs := cl v
+  cs.flatten == v &&
+  (List.range (cs.length + 1)).all (fun i => (cl (cs.take i).flatten).length == i) &&
+  (List.range (v.length + 1)).all (fun j => (cl (v.take j)).length ≤ cs.length)
+def segFlag (cl : List Nat → List (List Nat)) (v : List Nat) : String :=
+  if segLawsOk cl v then "" else " SEGMENTATION-LAW-VIOLATED"
+
 def tfcCanon (s : St) (tf : TextFieldCl.TF Nat) (cbs : List (TextFieldCl.Call Nat)) : String :=
   let shc : TextFieldCl.Call Nat → String
     | .change t => "C" ++ showClusters (s.cl t)
     | .submit t => "S" ++ showClusters (s.cl t)
-  s!"v={showClusters (s.cl tf.value)} col={(TextFieldCl.drawCursorCol s.cl s.cchars tf).toNat} cb={showLog (cbs.map shc)}"
+  s!"v={showClusters (s.cl tf.value)} col={(TextFieldCl.drawCursorCol s.cl s.cchars tf).toNat} cb={showLog (cbs.map shc)}{segFlag s.cl tf.value}"
 
 def tfcExpect (s : St) (ed : Ed (List Nat)) (cbs : List (Callback (List Nat))) : String :=
   s!"v={showClusters ed.text} col={widthOfC s (ed.text.take ed.cursor)} cb={showLog (cbs.map showCbC)}"
@@ -350,7 +360,7 @@ def stepTIC (s : St) (op : List String) (impl : String) : St × String :=
     let ed' := VaxisModel.Spec.Editor.applyC cl isW s.edc sop
     match TextInputCl.update cl isW s.tic ev with
     | none => ({ s with dead := true }, s!"panic\t{impl}\t{verdictEq "textinput" impl (ticExpect ed')}")
-    | some m' => ({ s with tic := m', edc := ed' }, s!"{ticCanon m'}\t{impl}\t{verdictEq "textinput" impl (ticExpect ed')}")
+    | some m' => ({ s with tic := m', edc := ed' }, s!"{ticCanon m'}{segFlag cl m'.content.flatten}\t{impl}\t{verdictEq "textinput" impl (ticExpect ed')}")
   match op with
   | ["upd", m, key, mods, text, _name] =>
     match ids? text with
